@@ -106,7 +106,9 @@ def matrix(seeds):
         d = tempfile.mkdtemp(prefix='seedmx-')
         try:
             shutil.copytree(os.path.join(REPO, 'src'), d + '/src', ignore=shutil.ignore_patterns('__pycache__'))
-            sh(['patch', '-p1', '-s', '-d', d, '-i', os.path.abspath(os.path.join(sdir, 'patch.diff'))])
+            pr = sh(['patch', '-p1', '-s', '-d', d, '-i', os.path.abspath(os.path.join(sdir, 'patch.diff'))])
+            if pr.returncode != 0:
+                return os.path.basename(sdir), seed, 'patch-does-not-apply'
             rr = sh([os.path.join(VERIF, 'vcheck'), meta.get('detecting_check') or meta['property'], '--no-evidence', '--seed', str(seed), '--shards', '6'],
                     env=dict(os.environ, NDN_REPO=d))
             return os.path.basename(sdir), seed, rr.returncode
